@@ -181,6 +181,25 @@ Definition stake_pos (t : tx) : Prop := match tx_data t with TStake a _ _ => 0 <
 
 Definition nouts_sum (txs : list tx) : N := fold_right (fun t acc => tx_nouts t + acc) 0 txs.
 
+(* ---- blocks ---- *)
+Lemma coinbase_shape b total outs :
+  coinbase_souts cfg genesis_addr b total = Ok outs -> pos_le1 outs /\ N.of_nat (length outs) <= 4.
+Proof.
+  unfold coinbase_souts, coinbase. intros H.
+  destruct (lb_version b =? 0).
+  - injection H as <-.
+    cbn [map pos_le1 is_pos o_type length N.eqb Pos.eqb OUT_COINBASE_DEV OUT_COINBASE_POW OUT_COINBASE_POS OUT_COINBASE_BURN].
+    split; [exact I|lia].
+  - destruct (lb_version b =? 1); [|discriminate H].
+    destruct (lb_signed b).
+    + destruct (_ =? 0); cbn [N.eqb app] in H; injection H as <-;
+      cbn [map pos_le1 is_pos o_type length N.eqb Pos.eqb OUT_COINBASE_DEV OUT_COINBASE_POW OUT_COINBASE_POS OUT_COINBASE_BURN];
+      (split; [first [exact I|constructor]|lia]).
+    + cbn [N.eqb app] in H. destruct (_ =? 0); cbn [app] in H; injection H as <-;
+      cbn [map pos_le1 is_pos o_type length N.eqb Pos.eqb OUT_COINBASE_DEV OUT_COINBASE_POW OUT_COINBASE_POS OUT_COINBASE_BURN];
+      (split; [first [exact I|constructor]|lia]).
+Qed.
+
 Section Gen.
 Variable Rd : list (N * dlg) -> list (N * dlg) -> Prop.
 Variable Inv : ledger -> Prop.
@@ -208,7 +227,9 @@ Theorem undo_txs_gen txs : forall l h bh top fee ln fee',
   (forall a, nonce (acct_at l a) + N.of_nat (length txs) < two64) ->
   sides l txs h bh top ->
   apply_txs cfg l txs h bh top fee = Ok (ln, fee') ->
-  Inv ln /\ (forall a, inc (acct_at ln a) <= inc (acct_at l a) + nouts_sum txs) /\
+  Inv ln /\
+  (forall a, inc (acct_at ln a) <= inc (acct_at l a) + nouts_sum txs /\
+             nonce (acct_at ln a) <= nonce (acct_at l a) + N.of_nat (length txs)) /\
   forall l' top', leqv_g Rd ln l' ->
     (forall t, In t txs -> nget (dhist l') (tx_id t) = nget (dhist ln) (tx_id t)) ->
     exists l2, remove_txs cfg l' (rev txs) bh top' = Ok l2 /\ leqv_g Rd l l2 /\ dhist l2 = dhist l'.
@@ -232,7 +253,8 @@ Proof.
                 ltac:(intros a; destruct (Hfr a); specialize (Hinc a); lia)
                 ltac:(intros a; destruct (Hfr a); specialize (Hnon a); lia) Hsr H) as (HIn & Hincn & Hrest).
     split; [exact HIn|]. split.
-    { intros a. cbn [nouts_sum fold_right]. fold (nouts_sum txs). destruct (Hfr a). specialize (Hincn a). lia. }
+    { intros a. cbn [nouts_sum fold_right length]. fold (nouts_sum txs). rewrite Nat2N.inj_succ.
+      destruct (Hfr a). destruct (Hincn a). lia. }
     intros l' top' Heq Hh.
     destruct (Hrest l' top' Heq ltac:(intros t' Hin; apply Hh; right; exact Hin)) as (l1' & Hrm & Heq1 & Hh1).
     destruct (Hundo l1' top' Heq1) as (l2 & Hr & Heq2 & Hh2).
@@ -313,24 +335,6 @@ Proof.
         split; [constructor; assumption|]. split; assumption.
 Qed.
 
-(* ---- blocks ---- *)
-Lemma coinbase_shape b total outs :
-  coinbase_souts cfg genesis_addr b total = Ok outs -> pos_le1 outs /\ N.of_nat (length outs) <= 4.
-Proof.
-  unfold coinbase_souts, coinbase. intros H.
-  destruct (lb_version b =? 0).
-  - injection H as <-.
-    cbn [map pos_le1 is_pos o_type length N.eqb Pos.eqb OUT_COINBASE_DEV OUT_COINBASE_POW OUT_COINBASE_POS OUT_COINBASE_BURN].
-    split; [exact I|lia].
-  - destruct (lb_version b =? 1); [|discriminate H].
-    destruct (lb_signed b).
-    + destruct (_ =? 0); cbn [N.eqb app] in H; injection H as <-;
-      cbn [map pos_le1 is_pos o_type length N.eqb Pos.eqb OUT_COINBASE_DEV OUT_COINBASE_POW OUT_COINBASE_POS OUT_COINBASE_BURN];
-      (split; [first [exact I|constructor]|lia]).
-    + cbn [N.eqb app] in H. destruct (_ =? 0); cbn [app] in H; injection H as <-;
-      cbn [map pos_le1 is_pos o_type length N.eqb Pos.eqb OUT_COINBASE_DEV OUT_COINBASE_POW OUT_COINBASE_POS OUT_COINBASE_BURN];
-      (split; [first [exact I|constructor]|lia]).
-Qed.
 
 Hypothesis Hok : cfg_ok_emission cfg = true.
 
@@ -348,12 +352,14 @@ Theorem undo_block_gen l b top_h lB :
   (forall a, nonce (acct_at l a) + N.of_nat (length (lb_txs b)) < two64) ->
   sides l (lb_txs b) (lb_height b) (lb_hash b) top_h ->
   apply_block cfg genesis_addr l b top_h = Ok lB ->
+  (forall a, inc (acct_at lB a) <= inc (acct_at l a) + nouts_sum (lb_txs b) + 4 /\
+             nonce (acct_at lB a) <= nonce (acct_at l a) + N.of_nat (length (lb_txs b))) /\
   forall l' top', leqv_g Rd lB l' ->
     (forall k, k = lb_hash b \/ In k (map tx_id (lb_txs b)) -> nget (dhist l') k = nget (dhist lB) k) ->
     exists l2, remove_block cfg genesis_addr l' b top' = Ok l2 /\ leqv_g Rd l l2 /\ dhist l2 = dhist l'.
 Proof.
   destruct (ok_facts cfg Hok) as ((HRI & HRI64) & H9 & Hms & Hms64 & _).
-  intros HI Hb Htx Hsp Hnd Hbh Hinc Hnon Hside H l' top' (Hsame & Hdom & Hd' & Hs') Hh'.
+  intros HI Hb Htx Hsp Hnd Hbh Hinc Hnon Hside H.
   unfold apply_block in H. bind_inv H. clear E a. bind_inv H. destruct a as [ln fee].
   assert (Hl64 : total_bal l < two64) by lia.
   destruct (apply_txs_total cfg (lb_txs b) l (lb_height b) (lb_hash b) top_h 0 ln fee Hl64 two64_pos Htx E) as [Ht1 Hfee64].
@@ -378,8 +384,11 @@ Proof.
   destruct e as [[u|c|c]|]; try discriminate H. injection H as ->.
   assert (Hbound : total_bal ln + sum_souts outs < two64) by (rewrite Hsum, Hsc; lia).
   assert (Hinc_n : forall a, inc (acct_at ln a) + out_cnt outs a < two64).
-  { intros a. pose proof (out_cnt_le_length outs a). specialize (Hincn a). specialize (Hinc a). lia. }
+  { intros a. pose proof (out_cnt_le_length outs a). destruct (Hincn a). specialize (Hinc a). lia. }
   destruct (apply_outputs_pointwise_gen outs ln (lb_hash b) (lb_hash b) lB Hbound Hinc_n Eao) as (A1 & A5 & A6).
+  split.
+  { intros a. rewrite A1. cbn [inc nonce]. pose proof (out_cnt_le_length outs a). destruct (Hincn a). lia. }
+  intros l' top' (Hsame & Hdom & Hd' & Hs') Hh'.
   (* ---- the removal ---- *)
   unfold remove_block. rewrite <- (apply_txs_fee _ _ _ _ _ _ _ _ E). rewrite Gtot. cbn [guard bind]. rewrite E0. cbn [bind].
   destruct (remove_outputs_gen outs l' (lb_hash b) (dlgs ln) (staked ln) Hp1) as (lC & Hrm & R1 & R2 & R3 & R4).
@@ -553,7 +562,9 @@ Theorem undo_block l b top_h lB :
     (forall k, k = lb_hash b \/ In k (map tx_id (lb_txs b)) -> nget (dhist l') k = nget (dhist lB) k) ->
     exists l2, remove_block cfg genesis_addr l' b top' = Ok l2 /\ leqv l l2 /\ dhist l2 = dhist l'.
 Proof.
-  intros Hok HI HP. apply (undo_block_gen eq EInv unstake_last EInv_ext EInv_kind EInv_tx EInv_pos Hok). split; assumption.
+  intros Hok HI HP Hb Htx Hsp Hnd Hbh Hinc Hnon Hside H.
+  exact (proj2 (undo_block_gen eq EInv unstake_last EInv_ext EInv_kind EInv_tx EInv_pos Hok l b top_h lB
+                  (conj HI HP) Hb Htx Hsp Hnd Hbh Hinc Hnon Hside H)).
 Qed.
 
 (* the form of C03_undo_block_full: removal from the very ledger the application produced *)
